@@ -269,6 +269,9 @@ func (r *Runner) monC05(s *Step, rep *Reply) {
 	}
 	nontriv := false
 	for _, c := range r.LiveCtrs() {
+		if r.NoShadow {
+			break
+		}
 		cr, ok := r.cacheRes(c.ID)
 		if !ok {
 			continue // membership is C11's/C15's business
@@ -400,6 +403,9 @@ func (r *Runner) monC04(s *Step, rep *Reply) {
 		}
 		r.Count("c04_pinned_checked")
 		zl := SetOf(maskList(zone))
+		if r.NoShadow {
+			continue
+		}
 		ml := SetOf(MustList(c.Shadow.Mems))
 		if len(zl) == 0 {
 			r.Violate("C04", "empty-zone", s.Op, "container %s has an empty assigned zone", c.Key)
